@@ -722,8 +722,28 @@ class _DecErrWithLog(tlv.DecodeError):
         self.log = log
 
 
+def top_level_form(tree):
+    """the top-level tree as some other Mapping, chosen by its content (deterministic): C10 speaks about mappings, and
+    the order a Mapping presents its items in is *mapping order* whatever its class"""
+    if not isinstance(tree, dict) or type(tree) is not dict:
+        return tree
+    import types
+    import zlib
+    h = zlib.crc32(repr(sorted(map(str, tree))).encode()) % 16
+    if h == 0:
+        return types.MappingProxyType(tree)
+    if h == 1:
+        return collections.UserDict(tree)
+    if h == 2:
+        return collections.ChainMap(tree)            # one map: iteration order is the dict's
+    if h == 3:
+        return LazyMap(_plain(tree)) if all(not isinstance(v, collections.abc.Mapping) or isinstance(v, dict) for v in tree.values()) else tree
+    return tree
+
+
 def op_encode(tree, si, **kw):
-    return Case(f"tlv.encode {'s' if si else '-'} {tree_tokens(tree)}", lambda: tlv.encode(tree, simple=si),
+    obj = top_level_form(tree)
+    return Case(f"tlv.encode {'s' if si else '-'} {tree_tokens(tree)}", lambda: tlv.encode(obj, simple=si),
                 kw.get("gen", "encode"), kw.get("proj", "full"), meta={"tree": tree})
 
 
